@@ -211,6 +211,21 @@ def boundaries(c):
     return len(set(ys)) - 1
 
 
+def streamed_prefix_keeps_filler_year(c, exp, got):
+    """class of the recorded defect W5 (found and characterised by C02): in a STREAMED year-less log (.gz here)
+    whose block zero was dropped by the look-behind before drops were disabled, the reverse pass stops early
+    and a non-empty PREFIX of the messages keeps the filler year (1972, give or take the zone), all other lines
+    being as expected"""
+    if c["container"] != "gz" or len(exp) != len(got) or not exp:
+        return False
+    k = 0
+    while k < len(exp) and got[k] != exp[k]:
+        if got[k][19:] != exp[k][19:] or got[k][:4] not in ("1971", "1972", "1973") or exp[k][:4] in ("1971", "1972", "1973"):
+            return False
+        k += 1
+    return k >= 1 and got[k:] == exp[k:]
+
+
 def run(ctx):
     quick = ctx.quick()
     n_cases = 1500 if quick else 40000
@@ -250,11 +265,14 @@ def run(ctx):
             cls = ["feb29_message_preceded_by_message_of_earlier_year"] if feb29_after_earlier_year(c) else []
             if unwalked_message_in_window_under_dummy_year(c):
                 cls.append("unwalked_message_in_window_under_dummy_year")
+            if rc != 124 and streamed_prefix_keeps_filler_year(c, exp, got):
+                cls.append("yearless_first_messages_keep_filler_year")
             ctx.failure(dict(case_summary(c), args=args, first_difference_at_output_line=k),
                         exp[k] if k < len(exp) else "<end of output> (%d lines)" % len(exp),
                         ("hang" if rc == 124 else got[k] if k < len(got) else "<end of output> (%d lines) %s" % (len(got), err)), cls)
     # ---- B: binary years vs the Coq model (no-window cases + margin witness)
-    bcases = [(c, r) for c, r in zip(cases + [margin], results) if not c["window"] and not feb29_after_earlier_year(c)]
+    bcases = [(c, r) for c, r in zip(cases + [margin], results) if not c["window"] and not feb29_after_earlier_year(c)
+              and not streamed_prefix_keeps_filler_year(c, r[1], r[2])]
     if quick:
         bcases = bcases[:600] + bcases[-1:]
     hdr = vlib.COQ_PRINT_HDR + "From Coq Require Import ZArith List NArith.\nImport ListNotations.\nFrom S4.Corr Require Import C11.\nOpen Scope Z_scope.\n"
